@@ -14,6 +14,8 @@ THEOREMS = [
     'C10.unflatten_flatten', 'C10.flatten_unflatten_shape',
     # uc.value_unit(uc.model(x)) = x: tree/JSON, nested view, XML text
     'C10.valueUnit_model', 'C10.valueUnit_model_nested', 'C10.valueUnit_model_xml',
+    # a value stored with its uncertainty (error=): value_unit and error_unit, one / two configurations
+    'C10.errorUnit_model', 'C10.errorUnit_model_two',
     # physical value vs working units at write / read time
     'C10.physical_value_unit_independent', 'C10.physical_value_rescaled',
     # Box
@@ -677,9 +679,13 @@ def _run_obj(case, r) -> RealRun:
     import numpy as np
     n = case['natoms']
     set_cfg(case['w1'])
-    system = am.System(atoms=am.Atoms(pos=np.array(case['pos'], dtype=float).reshape(n, 3)), box=_mk_box(case['box']))
     outs, facs = [], []
     r.extra['outs'], r.extra['facs'] = outs, facs
+    try:
+        system = am.System(atoms=am.Atoms(pos=np.array(case['pos'], dtype=float).reshape(n, 3)), box=_mk_box(case['box']))
+    except Exception as e:  # noqa
+        r.write_error = f'{type(e).__name__}: {e}'
+        return r
     for op in case['ops']:
         o, u = op['op'], op.get('unit')
         fac = (1.0, 1.0)
@@ -815,6 +821,7 @@ def _run_real(case, r) -> RealRun:
             if 'emodel' in r.extra:
                 try:
                     et = r.extra['emodel'] if via == 'tree' else _reparse(_to_text(r.extra['emodel'], via, True), True)
+                    r.extra['evia'] = None if via == 'tree' else et
                     r.extra['eread'] = (uc.value_unit(et), uc.error_unit(et))
                 except Exception as e:  # noqa
                     r.extra['eread_error'] = f'{type(e).__name__}: {e}'
@@ -1127,6 +1134,8 @@ def compare_obj(case, r, reply):
     out = []
     if reply.startswith('err:'):
         return [f'model refused the request: {reply}']
+    if r.write_error is not None:
+        return [f'implementation raised constructing the System/Box objects: {r.write_error}']
     ms = json.loads(reply, object_pairs_hook=Pairs)
     outs = r.extra['outs']
     if len(ms) != len(outs):
@@ -1175,6 +1184,36 @@ def compare_obj(case, r, reply):
                         break
         if out:
             break
+    return out
+
+
+def err_line(case, r):
+    """request for the value stored with an error (uc cases that carry one and were written)."""
+    if case['kind'] != 'uc' or 'emodel' not in r.extra:
+        return None
+    return request_line(case, r) + ' err ' + ' '.join(cm.fr(x) for x in case['err'])
+
+
+def compare_err(case, r, reply):
+    out = []
+    if reply.startswith('err:'):
+        return [f'model refused the request: {reply}']
+    m = dict(parse_reply(reply))
+    tol = _tol(case)
+    if m['tree'] is None:
+        return ['model refuses to write a value with an error; implementation wrote ' + str(r.extra['emodel'])[:200]]
+    same_tree(r.extra['emodel'], m['tree'], tol, 'with error:', None, out)
+    if 'eread_error' in r.extra:
+        if m['read'] is not None and m['eread'] is not None:
+            out.append(f"implementation raised on reading a value with an error ({r.extra['eread_error']}); model reads it")
+        return out
+    if r.extra.get('evia') is not None:
+        same_tree(r.extra['evia'], m['via'], tol, case['via'] + ' with error:', None, out)
+    for name, got, mod in (('value', r.extra['eread'][0], m['read']), ('error', r.extra['eread'][1], m['eread'])):
+        if mod is None:
+            out.append(f'model cannot read the {name} of a value stored with an error')
+        else:
+            same_arr(got, mod, tol, f'with error: {name}', out)
     return out
 
 
@@ -1295,12 +1334,22 @@ def correspond(ctx):
             r = run_real(case)
             if (case['kind'] == 'ec' and 'C' not in r.extra) or (case['kind'] == 'sys' and 'masses' not in r.extra):
                 continue        # the object itself could not be constructed: nothing to serialise
-            runs.append((case, r, request_line(case, r)))
+            runs.append((case, r, request_line(case, r), False))
+            if err_line(case, r) is not None:
+                runs.append((case, r, err_line(case, r), True))
     finally:
         restore_units()
-    replies = ctx.driver.ask_many([l for _, _, l in runs])
+    replies = ctx.driver.ask_many([l for _, _, l, _ in runs])
     cover = {}
-    for (case, r, line), reply in zip(runs, replies):
+    for (case, r, line, witherr), reply in zip(runs, replies):
+        if witherr:
+            ctx.stats.case(f"uc+error:{case['via']}", line, nontrivial=True)
+            diffs = compare_err(case, r, reply)
+            if diffs:
+                ctx.disagree(f"uc+error:{case['via']}", f"uc.model(value, unit, error=...) via {case['via']} (write "
+                             f"{case['w1']}, read {case['w2']}): " + '; '.join(diffs[:3]),
+                             {'case': case, 'line': line, 'diffs': diffs[:10]})
+            continue
         kind = f"{case['kind']}:{case['via']}"
         ctx.stats.case(kind, line, nontrivial=_nontrivial(case), sample=_brief(case))
         for u in _units_of(case):
@@ -1390,6 +1439,9 @@ def oracle_obj(ctx, case, r):
     """the object session against an exact (Fraction) account of the cell, origin and positions: after every
     operation the object must answer as a Box / System freshly constructed from the current values would."""
     F = Fraction
+    if r.write_error is not None:
+        ctx.violate('obj:create:raises', f'constructing the System/Box objects raised {r.write_error}', {'case': case})
+        return False
     V = [[F(x) for x in row] for row in case['box']['vects']]
     o = [F(x) for x in case['box']['origin']]
     pos = [F(x) for x in case['pos']]
@@ -1635,6 +1687,8 @@ def replay(ctx, payload):
                     and not (case['kind'] == 'sys' and 'masses' not in r.extra):
                 line = request_line(case, r)
                 diffs = compare(case, r, ctx.driver.ask(line))
+                if err_line(case, r) is not None:
+                    diffs += compare_err(case, r, ctx.driver.ask(err_line(case, r)))
                 for d in diffs[:10]:
                     print('  model/implementation:', d)
                 if diffs:
